@@ -1,11 +1,11 @@
 SPECIFICATION Spec
 CONSTANTS
-  MaxLen = 2
-  Alphabet = "small"
+  MaxLen = 4
+  Alphabet = "satcore"
   Dev_DupUserStucksObject = FALSE
   Dev_AuthFloodCrashes = FALSE
   Dev_HostileCountCrashes = FALSE
-  Dev_SaturationDeadlocks = FALSE
+  Dev_SaturationDeadlocks = TRUE
   Dev_SendBlocksOnUnreadSocket = FALSE
-INVARIANTS Export ServerUp AllServe
+INVARIANTS ServerUp AllServe
 CHECK_DEADLOCK FALSE
